@@ -34,6 +34,11 @@ def run(chk):
     model = core.Model() if b.modelrun_ok else None
     full = chk.tier == 'thorough' or bool(b.drift) or not b.proof_ok or not b.modelrun_ok
     cells = corpus.all_grammar() + corpus.FREE_TEXT + corpus.random_strings(chk.rng, 1500 if full else 150)
+    # LONG instances of the shared structure and long free text (lengths around 16, 32, 64, 128, 256 characters)
+    long_cells = ['*xywh-page_0012.jpg:1034,2210,1650,1310', '*xywh-b1f0e6a2-7c1d-4e0a-9a57:12,40,2000,380', '*M2/4+3/8+2/4+3/8+2/4+3/8+2/4+3/8',
+                  '*xywh-' + 'p' * 60 + ':1,2,3,4', '*xywh-' + 'q' * 130 + ':10,20,30,40', '*xywh-' + 'r' * 260 + ':10,20,30,40',
+                  '=' + '9' * 40, '*M' + '+'.join(['3/8'] * 40), 'la-' * 12, 'so ' * 25 + 'long', 'x' * 33, 'y' * 65, 'z' * 257]
+    cells += long_cells
     # damaged tokens: every proper prefix and every single-character deletion of the grammar's alternatives (a truncated
     # bounding box, a clef without its line ...) - the recogniser recovers from such cells in ways of its own
     gram = corpus.all_grammar()
@@ -50,7 +55,7 @@ def run(chk):
     for k_ in known:
         near += [k_ + 's', k_ + '2', k_ + 'ics', k_[:-1], k_.upper(), k_ + ' ']
     near = [h for h in dict.fromkeys(near) if h not in known and h not in headers]
-    light = list(dict.fromkeys(c for c in corpus.all_grammar() + corpus.FREE_TEXT if c != '' and '\t' not in c and '\n' not in c))
+    light = list(dict.fromkeys(c for c in corpus.all_grammar() + corpus.FREE_TEXT + long_cells if c != '' and '\t' not in c and '\n' not in c))
     headers = headers + near
     cells_of = {h: (light if h in near else cells) for h in headers}
     chk.rule = ('headers (6 supported non-kern types + unknown ones, plus ~45 names one edit away from a supported type on the grammar corpus) x cells: every alternative of the token grammar, '
